@@ -32,7 +32,42 @@ func checkC07(c *km.Ctx) {
 	r.Rule("R-C07-4", "both password entry points pass the normalised name to the backend and use the same value for the session; checkUserPassword returns the backend verdict unmodified; every backend returns true only from its verifier's success edge", 5)
 
 	pa := c.MustFunc("R-C07-1", "lib/pwauth/ldap", "(*PasswordAuthenticator).passwordAuthenticate")
-	upd := c.MustFunc("R-C07-2", "lib/pwauth/ldap", "(*PasswordAuthenticator).updateOrDeletePasswordHash")
+	upd := c.P.Func("lib/pwauth/ldap", "(*PasswordAuthenticator).updateOrDeletePasswordHash")
+	if upd == nil && pa != nil {
+		// renamed or split: the function of the package that takes the directory's boolean and (itself or through
+		// its own helpers) both refreshes and evicts the stored hash
+		for _, fn := range c.P.AllFuncs {
+			if fn.Pkg == nil || fn.Pkg.Pkg.Path() != ldapPkg || fn == pa || fn.Parent() != nil {
+				continue
+			}
+			hasBool := false
+			for _, p := range fn.Params {
+				if p.Type().String() == "bool" {
+					hasBool = true
+				}
+			}
+			if !hasBool {
+				continue
+			}
+			up, del := false, false
+			for f2 := range reachableFrom(c, nil, fn) {
+				for _, ci := range km.CallsIn(f2) {
+					switch km.CalleeFull(ci.Common()) {
+					case storeIface + "UpsertSigned":
+						up = true
+					case storeIface + "DeleteSigned":
+						del = true
+					}
+				}
+			}
+			if up && del && len(c.G.Callers[fn]) > 0 {
+				upd = fn
+			}
+		}
+	}
+	if upd == nil && pa != nil {
+		r.AnchorLost("R-C07-2", "the function that refreshes / evicts the stored hash on a directory verdict (updateOrDeletePasswordHash)")
+	}
 	if pa == nil || upd == nil {
 		checkPasswordDispatch(c, s)
 		return
@@ -40,41 +75,107 @@ func checkC07(c *km.Ctx) {
 	checkLDAPVerdict(c, s, pa, upd)
 
 	// ---------- R-C07-2
+	// the verdict / user / password parameters of the recorder, and the parameters of its own helpers bound to them
+	var verdictP, userP, pwP *ssa.Parameter
+	for _, p := range upd.Params[1:] {
+		switch p.Type().String() {
+		case "bool":
+			if verdictP == nil {
+				verdictP = p
+			}
+		case "string":
+			if userP == nil {
+				userP = p
+			}
+		case "[]byte":
+			if pwP == nil {
+				pwP = p
+			}
+		}
+	}
+	if verdictP == nil || userP == nil || pwP == nil {
+		r.AnchorLost("R-C07-2", "verdict / user / password parameters of "+upd.Name())
+		checkPasswordDispatch(c, s)
+		return
+	}
+	ufam := map[*ssa.Function]bool{}
+	for f2 := range reachableFrom(c, nil, upd) {
+		if f2.Pkg != nil && f2.Pkg.Pkg.Path() == ldapPkg {
+			ufam[f2] = true
+		}
+	}
+	utags := map[*ssa.Parameter]string{userP: "user", pwP: "password"}
+	utagOf := func(v ssa.Value) string {
+		v = km.Unwrap(v)
+		for i := 0; i < 3; i++ {
+			switch x := v.(type) {
+			case *ssa.Parameter:
+				return utags[x]
+			case *ssa.Convert:
+				v = km.Unwrap(x.X)
+			default:
+				return ""
+			}
+		}
+		return ""
+	}
+	for changed := true; changed; {
+		changed = false
+		for f2 := range ufam {
+			for _, ci := range km.CallsIn(f2) {
+				g := km.StaticCallee(ci.Common())
+				if g == nil || !ufam[g] {
+					continue
+				}
+				args := km.CallArgs(ci.Common())
+				for i, p := range g.Params {
+					if i < len(args) && utags[p] == "" {
+						if t := utagOf(args[i]); t != "" {
+							utags[p] = t
+							changed = true
+						}
+					}
+				}
+			}
+		}
+	}
+	uroots := map[*ssa.Function]bool{upd: true}
 	validTrue := km.Prim{Name: "valid", Direct: func(f km.Fact) bool {
-		return f.Op == token.ILLEGAL && f.Pol && km.Unwrap(f.X) == ssa.Value(upd.Params[1])
+		return f.Op == token.ILLEGAL && f.Pol && km.Unwrap(f.X) == ssa.Value(verdictP)
 	}}
 	validFalse := km.Prim{Name: "!valid", Direct: func(f km.Fact) bool {
-		return f.Op == token.ILLEGAL && !f.Pol && km.Unwrap(f.X) == ssa.Value(upd.Params[1])
+		return f.Op == token.ILLEGAL && !f.Pol && km.Unwrap(f.X) == ssa.Value(verdictP)
 	}}
 	nUp, nDel := 0, 0
-	for _, ci := range km.CallsIn(upd) {
-		n := km.CalleeFull(ci.Common())
-		a := km.CallArgs(ci.Common())
-		switch n {
-		case storeIface + "UpsertSigned":
-			nUp++
-			st := c.F.At(ci)
-			onValid := st.All(func(k km.Conj) bool { return s.Holds(k, validTrue) })
-			userOK := km.Unwrap(a[1]) == ssa.Value(upd.Params[2])
-			typ, tOK := km.ConstInt(a[2])
-			expOK := isNowPlusField(a[3], "expirationDuration")
-			hc, hidx := callRes(km.Unwrap(a[4]))
-			hashOK := hc != nil && hidx == 0 && km.CalleeFull(hc.Common()) == authutilPkg+".Argon2MakeNewHash" && km.Unwrap(hc.Common().Args[0]) == ssa.Value(upd.Params[3])
-			r.Add("R-C07-2", km.FuncName(upd), "refresh on acceptance", posOf(c, ci), "under valid: UpsertSigned(user, passwordDataType, now + expirationDuration, Argon2 hash of the accepted password)", sprintf("on-valid=%v user=%v type=%d/%v expiry=%v hash=%v", onValid, userOK, typ, tOK, expOK, hashOK), onValid && userOK && tOK && typ == 1 && expOK && hashOK)
-		case storeIface + "DeleteSigned":
-			nDel++
-			st := c.F.At(ci)
-			cmp := km.Prim{Name: "cached hash matches the rejected password", Direct: func(f km.Fact) bool {
-				cl, ok := f.X.(*ssa.Call)
-				if f.Op != token.EQL || !km.IsNilConst(f.Y) || !ok || km.CalleeFull(cl.Common()) != authutilPkg+".Argon2CompareHashAndPassword" {
-					return false
-				}
-				gc, gi := callRes(km.Unwrap(cl.Common().Args[0]))
-				return gc != nil && gi == 1 && km.CalleeFull(gc.Common()) == storeIface+"GetSigned" && km.Unwrap(cl.Common().Args[1]) == ssa.Value(upd.Params[3])
-			}}
-			ok := st.All(func(k km.Conj) bool { return s.Holds(k, validFalse) && s.Holds(k, cmp) })
-			userOK := km.Unwrap(a[1]) == ssa.Value(upd.Params[2])
-			r.Add("R-C07-2", km.FuncName(upd), "evict on rejection", posOf(c, ci), "under !valid and only when the cached hash matches the rejected password: DeleteSigned(user, passwordDataType)", sprintf("facts=%v user=%v", ok, userOK), ok && userOK)
+	for _, ufn := range sortedFuncs(ufam) {
+		for _, ci := range km.CallsIn(ufn) {
+			n := km.CalleeFull(ci.Common())
+			a := km.CallArgs(ci.Common())
+			switch n {
+			case storeIface + "UpsertSigned":
+				nUp++
+				onValid, _ := s.HoldsOnPathsWithin(ci, allPrims(s, validTrue), uroots, ufam, 3)
+				userOK := utagOf(a[1]) == "user"
+				typ, tOK := km.ConstInt(a[2])
+				expOK := isNowPlusField(a[3], "expirationDuration")
+				hc, hidx := callRes(km.Unwrap(a[4]))
+				hashOK := hc != nil && hidx == 0 && km.CalleeFull(hc.Common()) == authutilPkg+".Argon2MakeNewHash" && utagOf(hc.Common().Args[0]) == "password"
+				r.Add("R-C07-2", km.FuncName(ufn), "refresh on acceptance", posOf(c, ci), "under valid: UpsertSigned(user, passwordDataType, now + expirationDuration, Argon2 hash of the accepted password)", sprintf("on-valid=%v user=%v type=%d/%v expiry=%v hash=%v", onValid, userOK, typ, tOK, expOK, hashOK), onValid && userOK && tOK && typ == 1 && expOK && hashOK)
+			case storeIface + "DeleteSigned":
+				nDel++
+				cmp := km.Prim{Name: "cached hash matches the rejected password", Direct: func(f km.Fact) bool {
+					cl, ok := f.X.(*ssa.Call)
+					if f.Op != token.EQL || !km.IsNilConst(f.Y) || !ok || km.CalleeFull(cl.Common()) != authutilPkg+".Argon2CompareHashAndPassword" {
+						return false
+					}
+					gc, gi := callRes(km.Unwrap(cl.Common().Args[0]))
+					return gc != nil && gi == 1 && km.CalleeFull(gc.Common()) == storeIface+"GetSigned" && utagOf(cl.Common().Args[1]) == "password"
+				}}
+				ok1, _ := s.HoldsOnPathsWithin(ci, allPrims(s, validFalse), uroots, ufam, 3)
+				ok2, _ := s.HoldsOnPathsWithin(ci, allPrims(s, cmp), uroots, ufam, 3)
+				userOK := utagOf(a[1]) == "user"
+				r.Add("R-C07-2", km.FuncName(ufn), "evict on rejection", posOf(c, ci), "under !valid and only when the cached hash matches the rejected password: DeleteSigned(user, passwordDataType)", sprintf("facts=%v user=%v", ok1 && ok2, userOK), ok1 && ok2 && userOK)
+			}
 		}
 	}
 	if nUp == 0 || nDel == 0 {
@@ -430,11 +531,13 @@ func checkLDAPVerdict(c *km.Ctx, s *km.Sem, pa, upd *ssa.Function) {
 			if !ok {
 				continue
 			}
+			if km.StaticCallee(cl.Common()) == upd {
+				updCalls = append(updCalls, cl)
+				continue
+			}
 			switch km.CalleeFull(cl.Common()) {
 			case checkLDAP:
 				ldapCalls = append(ldapCalls, cl)
-			case ldapPA + "updateOrDeletePasswordHash":
-				updCalls = append(updCalls, cl)
 			case storeIface + "GetSigned":
 				getCalls = append(getCalls, cl)
 			}
@@ -611,7 +714,16 @@ func checkLDAPVerdict(c *km.Ctx, s *km.Sem, pa, upd *ssa.Function) {
 				}
 			}
 		}
-		if tagOf(a[2]) != "user" || tagOf(a[3]) != "password" {
+		nu, np := 0, 0
+		for _, arg := range a[2:] {
+			switch tagOf(arg) {
+			case "user":
+				nu++
+			case "password":
+				np++
+			}
+		}
+		if nu != 1 || np != 1 {
 			problems = appendUniq(problems, "user/password arguments are not the submitted ones")
 		}
 		sort.Strings(problems)
